@@ -189,10 +189,15 @@ def items(tier, seed):
                 continue
             out.append(dict(name=f'slabs={ns}/halos={nh}/parts={npt}/flags={"".join(str(int(x)) for x in fl)}/{"+".join(tr)}/chunk={ch[0]}.{ch[1]}',
                             ns=ns, nh=nh, npt=npt, flags=fl, tracers=tr, ch=ch))
+    # the particle-to-halo index itself: _searchsorted_parallel under the prange race monitor (obligation shared with C10)
+    out.append(dict(name='search', kind='search'))
     return out
 
 
 def run(item):
+    if item.get('kind') == 'search':
+        from checks import c10
+        return c10.run(item)
     return common.run_paths(lambda: body(item['ns'], item['nh'], item['npt'], tuple(item['flags']), tuple(item['tracers']), tuple(item['ch'])),
                             cov_funcs=FUNCS, max_paths=50000)[0]
 
@@ -283,6 +288,9 @@ def validate(tier):
 def replay(e, path):
     i = e['info'].get('case', {})
     m = e.get('model', {})
+    if i.get('kind') == 'search':
+        from checks import c10
+        return c10.replay(e, path)
     return common.write_replay(path, REPLAY.format(m=m, i=i, HF=HF, PF=PF))
 
 
